@@ -285,6 +285,7 @@ func runC14(c *Check) {
 	if nHeightPut == 0 {
 		c.Unk("C14-R3", "height-write", "", "", "anchor lost: no write of the height record")
 	}
+	ruleHeightNotAheadOfDisk(c, p)
 
 	// ---- R4
 	codecW := func(v *Term) string {
@@ -496,7 +497,7 @@ func safeMetaKey(p *Prog, key *Term) (bool, string) {
 						continue
 					}
 					sst := derefStruct(fa.X.Type())
-					if sst == nil || sst.Field(fa.Field).Name() != fieldName || !strings.Contains(fa.X.Type().String(), "pendingBase") {
+					if sst == nil || fieldLabel(fa.X.Type(), fa.Field) != fieldName || !strings.Contains(fa.X.Type().String(), "pendingBase") {
 						continue
 					}
 					n++
@@ -551,4 +552,108 @@ func callersOfGeneric(p *Prog, fn *ssa.Function) []*ssa.Function {
 		}
 	}
 	return out
+}
+
+// ruleHeightNotAheadOfDisk (C14-R3): the reported height is what the database holds. Every
+// piece of receiver memory that Height reads (a cache) may be written only with a value read
+// from the database or after the database write of the height succeeded; otherwise a failed
+// write leaves memory ahead of the disk, the guard of SetHeight turns every retry into a no-op
+// and the height goes backwards on reopen.
+func ruleHeightNotAheadOfDisk(c *Check, p *Prog) {
+	rule := "C14-R3"
+	hfn := p.MustFunc("(*" + storePkg + ".DefaultStore).Height")
+	isDB := func(t types.Type) bool { return strings.Contains(t.String(), "go-datastore.") }
+	read := map[int]string{}
+	var scan func(fn *ssa.Function, d int)
+	seen := map[*ssa.Function]bool{}
+	scan = func(fn *ssa.Function, d int) {
+		if seen[fn] || fn.Blocks == nil {
+			return
+		}
+		seen[fn] = true
+		for _, b := range fn.Blocks {
+			for _, in := range b.Instrs {
+				if fa, ok := in.(*ssa.FieldAddr); ok {
+					if st := derefStruct(fa.X.Type()); st != nil && strings.HasSuffix(fa.X.Type().String(), storePkg+".DefaultStore") && !isDB(st.Field(fa.Field).Type()) {
+						read[fa.Field] = st.Field(fa.Field).Name()
+					}
+				}
+				if call, ok := in.(*ssa.Call); ok && d < 2 {
+					if cal := call.Common().StaticCallee(); cal != nil && fnPkg(cal) != nil && fnPkg(cal).Pkg.Path() == storePkg {
+						scan(cal, d+1)
+					}
+				}
+			}
+		}
+	}
+	scan(hfn, 0)
+	if len(read) == 0 {
+		c.OK(rule, "Height ⟂ reads-only-the-database", fnName(hfn), p.Pos(hfn.Pos()), "Height reads no receiver state other than the database handle", true)
+		return
+	}
+	n := 0
+	for _, fn := range p.Funcs {
+		pk := fnPkg(fn)
+		if pk == nil || pk.Pkg.Path() != storePkg || fn.Blocks == nil {
+			continue
+		}
+		var g *Graph
+		for _, b := range fn.Blocks {
+			for _, in := range b.Instrs {
+				var fa *ssa.FieldAddr
+				var val ssa.Value
+				switch x := in.(type) {
+				case *ssa.Store:
+					fa, _ = x.Addr.(*ssa.FieldAddr)
+					val = x.Val
+				case *ssa.Call:
+					cn := commonName(x.Common())
+					if strings.HasPrefix(cn, "(*sync/atomic.") && atomicMutators[cn[strings.LastIndex(cn, ".")+1:]] && len(x.Common().Args) > 0 {
+						fa, _ = x.Common().Args[0].(*ssa.FieldAddr)
+						val = x.Common().Args[len(x.Common().Args)-1]
+					}
+				}
+				if fa == nil {
+					continue
+				}
+				name, isRead := read[fa.Field]
+				if !isRead || !strings.HasSuffix(fa.X.Type().String(), storePkg+".DefaultStore") {
+					continue
+				}
+				if g == nil {
+					g = BuildECFG(p, fn, ExpandOpts{MaxDepth: 0})
+					c.NoteGraph(g)
+				}
+				n++
+				inst := fnShort(fn) + " ⟂ writes " + name + " only from / after the database"
+				fromDB := p.DeepContains(TermOf(val, &Ctx{Fn: fn}), func(t *Term) bool {
+					return t.Op == "invoke" && strings.HasPrefix(t.Name, "(github.com/ipfs/go-datastore.") && strings.HasSuffix(t.Name, ").Get")
+				}, 2)
+				afterPut := false
+				inn := in
+				for _, f := range g.NecessaryEdges(func(x *Node) bool { return x.Kind == NInstr && x.In == inn }) {
+					t, pol := normFact(f.Cond, f.Pol)
+					if t.Op == "bin" && ((t.Name == "!=" && !pol) || (t.Name == "==" && pol)) {
+						for i := 0; i < 2; i++ {
+							o := t.Args[1-i]
+							if t.Args[i].Op == "const" && t.Args[i].Name == "nil" && o.Op == "invoke" && strings.HasPrefix(o.Name, "(github.com/ipfs/go-datastore.") && (strings.HasSuffix(o.Name, ").Put") || strings.HasSuffix(o.Name, ").Commit")) {
+								afterPut = true
+							}
+						}
+					}
+				}
+				switch {
+				case fromDB:
+					c.OK(rule, inst, fnName(fn), p.InstrPos(in), "the value written was read from the database", true)
+				case afterPut:
+					c.OK(rule, inst, fnName(fn), p.InstrPos(in), "written only after the database write succeeded", true)
+				default:
+					c.Bad(rule, inst, fnName(fn), p.InstrPos(in), "Height reads "+name+", which is written here before (or without) a successful database write: after a failed write the reported height is ahead of the disk, retries of SetHeight become no-ops, and the height goes backwards on reopen", nil)
+				}
+			}
+		}
+	}
+	if n == 0 {
+		c.Bad(rule, "Height ⟂ reads-only-the-database", fnName(hfn), p.Pos(hfn.Pos()), fmt.Sprintf("Height reads receiver state %v that nothing in the store package writes", read), nil)
+	}
 }
